@@ -35,7 +35,7 @@ CompileRec(c) ==
     ELSE Y!Compile([ N |-> c.N, wrap |-> c.wrap, ph |-> c.ph, pec |-> c.pec, pmc |-> c.pmc, ie2 |-> c.ie2, im2 |-> c.im2,
                      loss |-> c.loss, w |-> c.w, src |-> << >>, variant |-> "ok" ])
 
-Gauss(re, im) == [ i \in 1..Len(re) |-> << re[i], im[i] >> ]
+Gauss(re, im) == TLCEval([ i \in 1..Len(re) |-> << re[i], im[i] >> ])
 \* run state from an observed state o, with H of the preceding observed state p as Hp
 St(o, p) == [ E |-> Gauss(o.Er, o.Ei), H |-> Gauss(o.Hr, o.Hi), Hp |-> Gauss(p.Hr, p.Hi),
               dE |-> o.dE, dH |-> o.dH, dHp |-> p.dH, amp |-> << 0, 0 >> ]
